@@ -1,6 +1,7 @@
 import Driver.Util
 import ClairModel.Model.Rfc822
 import ClairModel.Model.Dpkg
+import ClairModel.Model.Apk
 
 namespace Driver.C02
 open ClairModel.Bytes ClairModel.Rfc822 ClairModel
@@ -17,6 +18,12 @@ def showPkgs (sorted : Bool) (ps : List Dpkg.Pkg) : String :=
   let l := ps.map showPkg
   let l := if sorted then sortStrings l else l
   " ".intercalate (s!"ok {l.length}" :: l)
+
+def showApkPkg (p : Apk.Pkg) : String :=
+  let src := match p.src with
+    | none => ["nosrc"]
+    | some (n, v) => ["src", hexB n, hexB v]
+  ",".intercalate ([hexB p.name, hexB p.version, hexB p.arch, hexB p.hint] ++ src)
 
 def showErr : Err → String
   | .ok => "nil"
@@ -41,6 +48,9 @@ def answer (l : String) : String :=
       | none => "bad-op"
   | ["distroless", h] => match toBytes h with
       | some b => showPkgs false (Dpkg.distrolessFile b)
+      | none => "bad-op"
+  | ["apk", h] => match toBytes h with
+      | some b => let l := (Apk.scan b).map showApkPkg; " ".intercalate (s!"ok {l.length}" :: l)
       | none => "bad-op"
   | ["reset"] => "ok"
   | _ => "bad-op"
